@@ -240,6 +240,43 @@ def h15_redis_past_due(S):
     S.check("fifo-not-overtaken", got == want, info=f"enqueued {want}, delivered {got}")
 
 
+def h15_redis_deferred_returned(S):
+    """Redis: a deferred job that became due is taken and handed back (worker stop, Message.reject()); a message enqueued after
+    that is not delivered before it."""
+    from engine.vtime import PinnedClock
+    from fakes import redis as fr
+    from harness.common import SEC, T0
+    from repid.data._key import RoutingKey
+    import repid.data._parameters as P
+
+    frac = S.int("position_in_the_clock_second_us", 0, SEC - 1)
+    # (one-off deferral only: handing back the first iteration of a recurring job moves it to its next slot - DESIGN 4.4)
+    clock = PinnedClock(T0)
+    got = []
+
+    async def main(loop):
+        br = fr.mk_broker(fr.FakeServer(clock=lambda: clock.time()))
+        key = RoutingKey(topic="job", queue="default", id_="deferred")
+        await br.enqueue(key, "p", P.Parameters(timestamp=S.datetime_us(T0), delay=P.DelayProperties(
+            delay_until=S.datetime_us(T0 + 2 * SEC))))
+        clock.set(T0 + 3 * SEC + frac)
+        cons = br.get_consumer("default", ["job"])
+        cons.POLLING_WAIT = 0
+        first = await cons.consume_or_none()
+        got.append(None if first is None else first[0].id_)
+        if first is not None:
+            await br.reject(first[0])
+        await br.enqueue(RoutingKey(topic="job", queue="default", id_="later"), "p", P.Parameters(timestamp=S.datetime_us(T0 + 3 * SEC + frac)))
+        for _ in range(2):
+            m = await cons.consume_or_none()
+            got.append(None if m is None else m[0].id_)
+
+    run_async(main, clock=clock)
+    S.cover("deferred-returned")
+    S.check("due-deferred-job-is-delivered", got[0] == "deferred", info=str(got))
+    S.check("returned-message-not-overtaken", got[1:] == ["deferred", "later"], info=f"after the hand-back the consumer received {got[1:]}")
+
+
 def _mk(backend, **kw):
     def scen(S, **p):
         return h15(S, backend=backend, **{**kw, **p})
@@ -281,6 +318,11 @@ HARNESSES = [
             bounds={"older messages waiting": "1..3", "late job": "deferred_until over by any µs up to an hour when it is enqueued"},
             functions=["connections/redis/utils.py:wait_timestamp", "connections/redis/message_broker.py:RedisMessageBroker.enqueue"],
             covers=["past-due-enqueued-last"], stubs=["fake Redis server"]),
+    Harness(name="H15-redis-deferred-returned", scenario=h15_redis_deferred_returned,
+            bounds={"job": "deferred_until 2 s ahead, taken one second after it became due at any position in the clock second, handed back",
+                    "then": "another message is enqueued; two consume calls"},
+            functions=["connections/redis/message_broker.py:RedisMessageBroker.reject", "connections/redis/utils.py:wait_timestamp"],
+            covers=["deferred-returned"], stubs=["fake Redis server"]),
     Harness(name="H15-redis-same-id", scenario=h15_redis_same_id,
             bounds={"sequence": "X, 1-2 others, X again, 0-1 others; consumed without acknowledging in between"},
             functions=["connections/redis/consumer.py:_RedisConsumer.__get_message_name"], covers=["same-id-twice"], stubs=["fake Redis server"]),
